@@ -72,6 +72,11 @@ class Grid(col.MutableSequence):
     @staticmethod
     def _approx_check(v1, v2):
         # Check types match
+        for kind in (bool, Quantity, Coordinate,
+                     datetime.time, datetime.datetime):
+            if isinstance(v1, kind) != isinstance(v2, kind):
+                # Values of different kinds never match
+                return False
         if isinstance(v1, datetime.time):
             return isinstance(v2, datetime.time) and \
                    v1.replace(microsecond=0) == v2.replace(microsecond=0)
